@@ -114,6 +114,9 @@ func c17Check(w *mon.W, keys []string, maxSize int) bool {
 			return false
 		}
 	}
+	if !retainCheck(w, "Shard", "sigbits.ShardByPrefix", func() uint64 { return gen.Hash64(hashI32(L), hashI32(B)) }) {
+		return false
+	}
 	// coverage of input shapes
 	n := len(in)
 	if n == 1 {
